@@ -52,7 +52,11 @@ META = {
             "offers a version (the statement only says 'only if').  Only the first Sec-WebSocket-Protocol header line is "
             "considered (single-header quantifier).  'Speaks version v' is observed as: ClientRequest::protocol_version() on "
             "the server, Status-vs-Health framing on the wire, Status-vs-Health decoding in the client.  For a non-101 "
-            "answer the client's error class may be the websocket library's (it checks the status first).",
+            "answer the client's error class may be the websocket library's (it checks the status first).  A refused upgrade "
+            "is observed as 'some 4xx without a Sec-WebSocket-Protocol header'; which 4xx, and the Sec-WebSocket-Version hint, "
+            "are modelled but not compared.  Outside the property (single-header quantifier) but observed while building: "
+            "when the offer is split over two Sec-WebSocket-Protocol header lines (legal per RFC 6455 4.1) the server only "
+            "reads the first line (`[v1][v2]` -> v1, `[chat][v2]` -> 400).",
     "design_ref": "§6 C11",
 }
 
@@ -119,6 +123,8 @@ def run(ctx):
     judge(ctx, cases, obs)
     if not ctx.violations:
         selftest(ctx, cases, obs)
+    if not ctx.quick:
+        connect_pipeline(ctx)
     ctx.cov["rule"] = ("every case of RelayHttpNegotiate at the tier's constants (exhaustive): all offered headers of <= MaxLen "
                        "tokens, the missing header, 27 broken-precondition requests, 16 scripted answers, end to end; "
                        "non-trivial = a header with at least one token that is not plainly supported, or any client-side case")
@@ -144,13 +150,12 @@ def mismatch(c, o):
     """None or (kind, expected, got)."""
     mode, resp = c["mode"], c["resp"]
     if mode == "srv":
-        if o["status"] != resp["status"]:
+        # a refusal is any 4xx (the model's 400 / 404 and the Sec-WebSocket-Version hint on a 400 are documentation)
+        if (o["status"] != 101) if resp["status"] == 101 else not (400 <= o["status"] <= 499):
             return ("status", resp["status"], o["status"])
         want = [VERSION_NAME[resp["proto"]].encode().hex()] if resp["hasProto"] else []
         if o["protos"] != want:
             return ("proto", [bytes.fromhex(w).decode() for w in want], [bytes.fromhex(w).decode("latin-1") for w in o["protos"]])
-        if o["wsver"] != resp["wsver"]:
-            return ("wsversion-header", resp["wsver"], o["wsver"])
         if c["srvSpeaks"] != "none":
             if o.get("err"):
                 return ("upgraded-connection", "a working relay connection", o["err"])
@@ -253,3 +258,70 @@ def selftest(ctx, cases, obs):
     if n != 7:
         raise ToolError("binding self-test failed: only %d of 7 corrupted expectations/observations were rejected" % n)
     ctx.log("binding self-test: 7 corrupted expectations/observations all rejected")
+
+
+# ---------------------------------------------------------------------------------------------------------
+# Growth (thorough tier): the whole ClientBuilder::connect pipeline, specs/relay/RelayClientConnect.tla.
+CONNECT_ANSWER = {"101v2": (101, b"iroh-relay-v2", False), "101v1": (101, b"iroh-relay-v1", False),
+                  "101v3": (101, b"iroh-relay-v3", False), "101none": (101, None, False), "400": (400, None, False),
+                  "close": (101, None, True)}
+CONNECT_TOKEN = {"none": None, "valid": "tok-123_abc", "invalid": "bad\ntoken"}
+CONNECT_CLASS = {"ok": ("",), "MissingCryptoProvider": ("nocrypto",), "Dial": ("dial",), "InvalidAuthToken": ("token",),
+                 "Websocket": ("websocket", "status"), "BadVersionHeader": ("version",),
+                 "HandshakeDenied": ("handshake-denied",), "HandshakeBroken": ("handshake",)}
+
+
+def connect_pipeline(ctx):
+    """TLC enumerates client configuration x scripted relay; the real connect() must end in the model's error class and
+    the relay must have seen what the model says.  A disagreement about whether an answer's version is accepted is a C11
+    violation; any other disagreement means the pipeline model has drifted from the code (tool error, not a violation)."""
+    res = ctx.tlc("relay", "RelayClientConnect", mode="gen", timeout=900,
+                  require_actions=["MapUrl", "NeedTlsConfig", "Dial", "BuildRequest", "Upgrade", "CheckVersion", "Handshake",
+                                   "Connected"])
+    cases = res.replays
+    inp = []
+    for c in cases:
+        status, proto, close = CONNECT_ANSWER[c["srv"]["answer"]]
+        inp.append({"mode": "connect", "scheme": c["cfg"]["scheme"], "tls_config": c["cfg"]["tlsConfig"],
+                    "token": CONNECT_TOKEN[c["cfg"]["token"]], "listen": c["srv"]["listen"], "status": status,
+                    "proto": proto.hex() if proto is not None else None, "close": close, "hs": c["srv"]["hs"]})
+    path = ctx.write_ndjson("c11-connect.in", inp)
+    outp = ctx.path("c11-connect.out")
+    ctx.run_bin("vh_relaynet", ["c11", "--in", path, "--out", outp], timeout=1500)
+    obs = ctx.read_ndjson(outp)
+    if len(obs) != len(cases):
+        raise ToolError("harness returned %d observations for %d connect cases" % (len(obs), len(cases)))
+    drift = []
+    for c, o in zip(cases, obs):
+        sig = {"mode": "connect", "cfg": "%s tls=%s token=%s" % (c["cfg"]["scheme"], c["cfg"]["tlsConfig"], c["cfg"]["token"]),
+               "relay": "listen=%s answer=%s hs=%s" % (c["srv"]["listen"], c["srv"]["answer"], c["srv"]["hs"])}
+        ctx.count(case_key=sig, nontrivial=True)
+        reached_version = c["result"] in ("ok", "BadVersionHeader", "HandshakeDenied", "HandshakeBroken")
+        got_version_verdict = o["cli_err"] in ("", "version", "handshake", "handshake-denied")
+        if reached_version and got_version_verdict and (c["result"] == "BadVersionHeader") != (o["cli_err"] == "version"):
+            s2 = dict(sig)
+            s2["kind"] = "client-accept"
+            ctx.report(s2, "connect() %s the relay's answer %s where the spec says %s (%s)"
+                       % ("rejected" if o["cli_err"] == "version" else "accepted", c["srv"]["answer"], c["result"], o["cli_err_text"]),
+                       dict(c, mode="connect"))
+            continue
+        seen = o["seen"]
+        want_auth = [b"Bearer tok-123_abc".hex()] if c["seenAuth"] == "bearer" else []
+        problems = []
+        if o["cli_err"] not in CONNECT_CLASS[c["result"]]:
+            problems.append("result %s, model %s (%s)" % (o["cli_err"] or "ok", c["result"], o["cli_err_text"]))
+        if seen["conn"] != c["seenConn"] or seen["req"] != c["seenReq"]:
+            problems.append("relay saw conn=%s req=%s, model conn=%s req=%s" % (seen["conn"], seen["req"], c["seenConn"], c["seenReq"]))
+        if c["seenReq"] and seen["req"]:
+            if seen["auth"] != want_auth:
+                problems.append("Authorization %s, model %s" % (seen["auth"], c["seenAuth"]))
+            if seen["request_line"] != "GET %s HTTP/1.1" % c["seenPath"]:
+                problems.append("request line %r" % seen["request_line"])
+            if seen["offer"] != [header_bytes(["v2", "v1_lsp"]).hex()]:
+                problems.append("offer %s" % seen["offer"])
+        if problems:
+            drift.append("%s: %s" % (sig, "; ".join(problems)))
+    if drift:
+        raise ToolError("RelayClientConnect no longer describes ClientBuilder::connect (spec drift, not a C11 violation) in %d "
+                        "case(s), e.g. %s" % (len(drift), drift[:3]))
+    ctx.log("connect pipeline: %d cases conform" % len(cases))
